@@ -15,13 +15,22 @@ func registerProps() {
 	txReal := []string{"internal/transfer: SendManifestMultiStream, RecvManifestMultiStream, multiConn, sidecar, control/data protocol (instrumented copy of the current working tree)", "internal/scheduler", "internal/bufpool", "pkg/manifest Scan/ScanPaths", "OS file system (real syscalls behind the interposition layer, per-run scratch directory)"}
 	txStub := []string{"QUIC connection: SimNet stream-level model (DESIGN.md 2.4) instead of transferquic/quic-go", "app shell around the engines (sender closes with code 0 when the engine returns; receiver process exits without closing)", "path resolver for selection mode (join with the source root; buildPathResolver lives in package app)"}
 	txAssume := []string{"SimNet models QUIC stream semantics as pinned in DESIGN.md 2.4 (stream visibility, close discards unread data, idle timeout 30 s)", "code between two generated yield points of one goroutine contains no synchronisation other than unlock/atomic operations", "one monotone fake clock for both nodes (no skew)"}
+	t2Real := []string{"internal/transfer engines (SendManifestMultiStream, RecvManifestMultiStream, multiConn)", "internal/transferquic (real adapter: streams, deadlines, close)", "quic-go v0.58.0 and crypto/tls (real, not instrumented)", "internal/app.authenticateTransport with the real TLS exporter", "pkg/manifest.Scan", "OS file system"}
+	t2Stub := []string{"UDP: SimUDP, one path with drawn latency (0-200 ms one way) and optional 1-5 % loss, timer-driven on the fake clock", "app shell around the engines (sender closes its connections with code 0 when the engine returns; the receiver process just ends)", "extra connections are dialled on the same quic.Transport (dialExtraConns opens real UDP sockets and cannot run)"}
+	t2Assume := []string{"no scheduler: interleavings come from latency, loss and quic-go's own timers; replay reproduces the outcome, stability is measured for every reported violation", "GOMAXPROCS=1; the generated lock sites of the engines poll with durable sleeps so that the bubble's clock keeps moving"}
+	t2Part := func(id string, quick, thorough int, rule string) *propDef {
+		return &propDef{ID: id, Pkg: "internal/app", Level: "exploration", Unscheduled: true, Env: []string{"GOMAXPROCS=1", "GODEBUG=asyncpreemptoff=1"},
+			Quick: quick, Thorough: thorough, QuickWall: 4 * time.Minute, ThorWall: 20 * time.Minute, Rule: rule, Real: t2Real, Stub: t2Stub, Assume: t2Assume}
+	}
 	reg(&propDef{
+		Parts: []*propDef{t2Part("C03T2", 400, 12000, "tier T2 confirmation: the same engines over the real transferquic adapter and real quic-go on SimUDP (0-6 files with sizes around chunk boundaries, nesting, empty directory, chunk 64 B-16 KiB, 1-6 streams, 1-2 connections, resume per side, hash algorithm, root-dir mode, one-way latency 0-200 ms, optional loss), fault-free: both must return nil within 16 simulated minutes; one spec in 23 is the manifest without files (listed finding), which must show the same signature here as on the stream-level model")},
 		ID: "C03", Pkg: "internal/transfer", Level: "exploration",
 		Quick: 6000, Thorough: 300000, QuickWall: 5 * time.Minute, ThorWall: 40 * time.Minute,
 		Rule: "each run = one seeded workload (0-6 files with sizes around chunk boundaries, nesting, empty directories, legal odd names; chunk size 1 B-16 KiB; 1-8 streams; 1-4 connections; resume per side; hash algorithm; root-dir and scan mode; QUIC role; segment size; flow-control window) x one seeded schedule (random/weighted/PCT/FIFO, clock stalls, starve-one) with NO faults; non-trivial = more than 50 scheduling steps, distinct by decision-log hash",
 		Real: txReal, Stub: txStub, Assume: txAssume,
 	})
 	reg(&propDef{
+		Parts: []*propDef{t2Part("C01T2", 400, 12000, "tier T2 confirmation: the generator of C03's T2 part; runs in which both engines return nil are judged: digest of the output directory (paths, types, sizes, SHA-256) = digest of the generated source tree")},
 		ID: "C01", Pkg: "internal/transfer", Level: "exploration",
 		Quick: 6000, Thorough: 300000, QuickWall: 5 * time.Minute, ThorWall: 40 * time.Minute,
 		Rule: "same generator as C03 (fault-free, all configurations and schedules); only runs in which both engines returned nil are judged (the others are counted as outside the property's scope); oracle: digest of the output directory = digest of the generated source tree, nothing else present except the resume-metadata directory",
@@ -34,6 +43,7 @@ func registerProps() {
 		Real: txReal, Stub: txStub, Assume: txAssume,
 	})
 	reg(&propDef{
+		Parts: []*propDef{t2Part("C02T2", 300, 8000, "tier T2 confirmation: the generator of C03's T2 part with at least one file; each spec is run fault-free over real quic-go to learn its duration and then again with one fault at a drawn fraction of it: path blackholed in both directions (abrupt loss), connection closed with code 0 by the sender's or the receiver's side, context of the sender or the receiver cancelled; per side: error, or success only with a complete identical tree at the receiver; both return within 12 simulated minutes of the fault")},
 		ID: "C02", Pkg: "internal/transfer", Level: "fault_enumeration",
 		Quick: 3000, Thorough: 120000, QuickWall: 6 * time.Minute, ThorWall: 45 * time.Minute,
 		Rule: "each run = one seeded workload/configuration/schedule (as C03, 1-4 files) executed once fault-free to count its deliveries, then again with 1-2 faults: graceful close(0) by either side, abrupt loss, context cancel of sender or receiver, bit flip in chunk payload or CRC field, source file shrunk/unlinked after the scan, output path obstructed, n-th receiver file operation failing with ENOSPC/EIO/EACCES; connection-level faults are anchored to a delivery index of the fault-free execution (drawn per run; in the thorough tier every 10th spec places its fault at EVERY delivery index 0..D); non-trivial = a fault actually fired; distinct by decision-log hash",
